@@ -30,24 +30,24 @@ pub(crate) fn fake_socket(server_mode: bool) -> KrpcSocket {
 }
 
 /// Ghost log of outgoing datagrams (KrpcSocket::send stub).
-pub(crate) static mut SENT_N: usize = 0;
-pub(crate) static mut SENT_TO: [Option<SocketAddrV4>; 8] = [None; 8];
-pub(crate) static mut SENT_TID: [u32; 8] = [0; 8];
-pub(crate) static mut SENT_RO: [bool; 8] = [false; 8];
-pub(crate) static mut SENT_KIND: [u8; 8] = [0; 8]; // 0 request, 1 response, 2 error
-pub(crate) static mut SENT_TOKEN: [[u8; 4]; 8] = [[0; 4]; 8];
-pub(crate) static mut SENT_LAST: Option<Message> = None;
+pub(crate) static mut SENT_N: crate::verif_env::Ghost<usize> = crate::verif_env::ghost(41, 0);
+pub(crate) static mut SENT_TO: crate::verif_env::Ghost<[Option<SocketAddrV4>; 8]> = crate::verif_env::ghost(42, [None; 8]);
+pub(crate) static mut SENT_TID: crate::verif_env::Ghost<[u32; 8]> = crate::verif_env::ghost(43, [0; 8]);
+pub(crate) static mut SENT_RO: crate::verif_env::Ghost<[bool; 8]> = crate::verif_env::ghost(44, [false; 8]);
+pub(crate) static mut SENT_KIND: crate::verif_env::Ghost<[u8; 8]> = crate::verif_env::ghost(45, [0; 8]); // 0 request, 1 response, 2 error
+pub(crate) static mut SENT_TOKEN: crate::verif_env::Ghost<[[u8; 4]; 8]> = crate::verif_env::ghost(46, [[0; 4]; 8]);
+pub(crate) static mut SENT_LAST: crate::verif_env::Ghost<Option<Message>> = crate::verif_env::ghost(47, None);
 pub(crate) fn send_stub(_s: &mut KrpcSocket, a: SocketAddrV4, m: Message) -> Result<(), SendMessageError> {
     unsafe {
-        if SENT_N < 8 {
-            SENT_TO[SENT_N] = Some(a);
-            SENT_TID[SENT_N] = m.transaction_id;
-            SENT_RO[SENT_N] = m.read_only;
-            SENT_KIND[SENT_N] = match &m.message_type {
+        if SENT_N.v < 8 {
+            SENT_TO.v[SENT_N.v] = Some(a);
+            SENT_TID.v[SENT_N.v] = m.transaction_id;
+            SENT_RO.v[SENT_N.v] = m.read_only;
+            SENT_KIND.v[SENT_N.v] = match &m.message_type {
                 MessageType::Request(r) => {
                     if let crate::common::RequestTypeSpecific::Put(p) = &r.request_type {
                         if p.token.len() == 4 {
-                            SENT_TOKEN[SENT_N] = [p.token[0], p.token[1], p.token[2], p.token[3]];
+                            SENT_TOKEN.v[SENT_N.v] = [p.token[0], p.token[1], p.token[2], p.token[3]];
                         }
                     }
                     0
@@ -56,8 +56,8 @@ pub(crate) fn send_stub(_s: &mut KrpcSocket, a: SocketAddrV4, m: Message) -> Res
                 MessageType::Error(_) => 2,
             };
         }
-        SENT_N += 1;
-        SENT_LAST = Some(m);
+        SENT_N.v += 1;
+        SENT_LAST.v = Some(m);
     }
     Ok(())
 }
